@@ -2778,6 +2778,9 @@ where
 
             inp.errors.alt = old_alt;
             inp.add_alt_err(&new_alt.pos, new_alt.err);
+        } else if let Some(old_alt) = old_alt {
+            // The inner parser succeeded: nothing to map, but the alt that was set aside must not be forgotten
+            inp.add_alt_err(&old_alt.pos, old_alt.err);
         }
 
         res
